@@ -2,7 +2,7 @@
 import copy
 from typing import List
 
-from glom import glom, assign, Assign, Path, T, S, Spec, Val, GlomError, PathAccessError, PathAssignError
+from glom import glom, assign, Assign, Path, T, S, Spec, Val, Coalesce, GlomError, PathAccessError, PathAssignError
 
 from harness.mutlib import (SEGS, NFAM, FAMILIES, family, plain, ids, ref_assign, spell, pick_segs, Obj, Boom, step_get,
                             MyDict, MyList)
